@@ -50,6 +50,10 @@
   the same, against the INDEPENDENT reader of      item_refines_spec                  every item text
    Hostlist/Spec.lean (what checks/c15.py tests)
 
+  `pdsh -w` and a comma-word whose parse fails         cli_drops_failed_word (witness of the    `b,a[1`
+   WITHOUT a diagnostic (open finding                   open finding: the word is left out,
+   F15-CLI-WORD-DROPPED)                                pdsh goes on)
+
   NOT PROVED: the CPU / memory ceilings of the compiled code and the absence of out-of-bounds
   accesses in the C text itself (pointer arithmetic inside the strdup'ed copy) are observed by the
   correspondence (ASan/UBSan, per-call limits), the model works on lists; glibc `strtoul`/`snprintf`
@@ -481,6 +485,22 @@ theorem create_refines_classify (cfg : Cfg) (h15 : cfg.fixUlongMax = true) (h16 
     rcases create_returns cfg h15 h18 s with ⟨h, hc⟩ | hnull
     · exact absurd ((create_iff_classify cfg h15 h16 h18 h22 s).mp ⟨h, hc⟩) hn
     · exact hnull
+
+/-! ## what `pdsh -w` does with a word whose parse fails (open finding F15-CLI-WORD-DROPPED) -/
+
+/-- THE FAILURE OF ONE COMMA-WORD IS NOT THE FAILURE OF `-w` (code as found, every variant of
+    hostlist.c): the argument `b,a[1` has unbalanced brackets and `hostlist_create` refuses it as
+    a whole (EINVAL, no diagnostic) — but opt.c hands every comma-word to `hostlist_push` on its
+    own and does not look at the result, so pdsh goes on with `b`.  The property text asks that
+    unbalanced brackets make the parse fail; checks/c15.py reports every such run of the real pdsh
+    (signature `cli-unbalanced-accepted:word-dropped`); proposed patch:
+    findings/C15-CLI-WORD-DROPPED.patch. -/
+theorem cli_drops_failed_word :
+    create Cfg.repaired "b,a[1".toList = .null EINVAL .none ∧
+    Spec.balanced 0 "b,a[1".toList = false ∧
+    (match cliTargets Cfg.repaired "b,a[1".toList with
+      | .ok (some h) => some h.hosts | _ => none) = some ["b".toList] := by
+  decide
 
 /-! ## limits and bounds that hold in EVERY variant, for every text -/
 
